@@ -305,6 +305,32 @@ class ExitAwaiter:
         return False
 
 
+class _BoolRaises:
+    def __bool__(self):
+        raise RuntimeError("no truth value")
+
+
+def _tbhide_value(which):
+    """values a frame may bind to __tracebackhide__: plain True, pytest's documented predicate form (a callable taking the
+    ExceptionInfo), and an object that cannot be truth-tested; the frame is hidden either way, nothing inward may vanish"""
+    import operator
+    return [True, operator.methodcaller("errisinstance", ValueError), _BoolRaises()][which]
+
+
+async def coro_tbhide_frame(b, i, ml, which):
+    __tracebackhide__ = _tbhide_value(which)  # noqa: F841
+    try:
+        if ml:
+            await (
+                nxt(b, i)
+            )
+        else:
+            await nxt(b, i)
+    finally:
+        b.unwound.append(sys._getframe())
+    return "tbhide-done"
+
+
 class ExitAwaiterDelSelf(ExitAwaiter):
     """the same, but the exit method unbinds its own `self` before it waits (`res = self; del self; await ...`): the
     frame of __aexit__ then no longer says which manager it belongs to"""
@@ -498,6 +524,8 @@ def nxt(b, i):
         return b.reg(gencoro_frame(b, j, ml))
     if kind == "in_aexit":
         return b.reg(coro_aexit_frame(b, j, ml))
+    if kind.startswith("tbhide"):
+        return b.reg(coro_tbhide_frame(b, j, ml, int(kind[-1])))
     if kind == "in_aexit_delself":
         b.error_allowed = True    # which manager is exiting cannot be told: an error about THAT is not judged here
         return b.reg(coro_aexit_delself_frame(b, j, ml))
